@@ -417,6 +417,7 @@ func TestC06(t *testing.T) {
 	nestLattice(depths, emit)
 	if !strings.Contains(dbgSkip, "numeric") {
 		numericLattice(emit, three)
+		hugeLattice(emit)
 	}
 	if strings.Contains(dbgSkip, "onlyhuge") {
 		var keep []caseSpec
